@@ -503,11 +503,16 @@ class ThreadPool(object):
                         # Call the method
                         future.execute(method, args, kwargs)
                     except BaseException as ex:
-                        self._logger.exception(
-                            "Error executing %s: %s",
-                            getattr(method, "__name__", method),
-                            ex,
-                        )
+                        try:
+                            self._logger.exception(
+                                "Error executing %s: %s",
+                                getattr(method, "__name__", method),
+                                ex,
+                            )
+                        except Exception:
+                            # The error can't even be reported (e.g. odd
+                            # callable object): the thread must go on
+                            pass
                     finally:
                         # Mark the action as executed
                         self._queue.task_done()
